@@ -836,7 +836,7 @@ impl<O: Op + Clone, ALLOC: FastOpAllocator> DiagonalSubsection for FastOpsTempla
 
     // TODO test get_args_at_p for nonzero values, and for var subsections. Test empty vars!
     fn fill_args_at_p(&self, p: usize, empty_args: Self::Args) -> Self::Args {
-        let args = empty_args;
+        let mut args = empty_args;
         if args.unfilled > 0 {
             self.iter_ops_above_p(
                 p,
@@ -889,6 +889,9 @@ impl<O: Op + Clone, ALLOC: FastOpAllocator> DiagonalSubsection for FastOpsTempla
                 },
             )
         } else {
+            // None of the selected variables has ops, but ops on other variables (or ops which
+            // cover no variables) may still precede p: the global predecessor is needed regardless.
+            args.last_p = (0..p).rev().find(|q| self.get_node_ref(*q).is_some());
             args
         }
     }
